@@ -28,7 +28,7 @@ func TestC10_PubSub(t *testing.T) {
 		maxLives = 1
 		c.Excluded(findingLiveRace)
 	}
-	ev.Rapid("pubsub", ev.Pick(1200, 12000))
+	ev.Rapid("pubsub", ev.Pick(1000, 12000))
 	rapid.Check(t, func(rt *rapid.T) {
 		p := drawPSCase(rt, maxOps, maxLives)
 		c.Case()
@@ -56,7 +56,7 @@ func TestC10_Webhook(t *testing.T) {
 	// several independent cases run side by side in one rapid iteration: a case
 	// spends most of its time waiting for the sender's 0.5 s retry pauses
 	batch := 4
-	ev.Rapid("webhook", ev.Pick(5, 30))
+	ev.Rapid("webhook", ev.Pick(4, 30))
 	rapid.Check(t, func(rt *rapid.T) {
 		cases := make([]whCase, batch)
 		for i := range cases {
@@ -135,6 +135,33 @@ func TestReplay(t *testing.T) {
 			applyOutcome(c, o)
 			if o.key != "" {
 				c.Violation(o.key, o.what, rsReplay{Case: r.Case, History: o.history})
+				t.Fatalf("VIOLATION-CANDIDATE key=%s: %s", o.key, o.what)
+			}
+		}
+	case "hook-lifecycle":
+		var rd rdReplay
+		if json.Unmarshal(doc.Data, &rd) == nil && len(rd.Case.Steps) > 0 {
+			for i := 0; i < 5; i++ {
+				c.Case()
+				o := runRedefine(rd.Case)
+				applyOutcome(c, o)
+				if o.key != "" {
+					c.Violation(o.key, o.what, rdReplay{Case: rd.Case, History: o.history})
+					t.Fatalf("VIOLATION-CANDIDATE key=%s: %s", o.key, o.what)
+				}
+			}
+			return
+		}
+		var lc lcReplay
+		if err := json.Unmarshal(doc.Data, &lc); err != nil {
+			t.Fatalf("bad replay data: %v", err)
+		}
+		for i := 0; i < 3; i++ {
+			c.Case()
+			o := runLifecycle(lc.Case)
+			applyOutcome(c, o)
+			if o.key != "" {
+				c.Violation(o.key, o.what, lcReplay{Case: lc.Case, History: o.history})
 				t.Fatalf("VIOLATION-CANDIDATE key=%s: %s", o.key, o.what)
 			}
 		}
